@@ -260,7 +260,7 @@ class Body:
 
     @staticmethod
     def _is_buffer_ty(ty):
-        return ty.startswith("std::vec::Vec<") or ty.startswith("bytes::BytesMut") or ty.startswith("[") \
+        return ty.startswith("std::vec::Vec<") or ty.startswith("bytes::BytesMut") or ty.startswith("bytes::Bytes") or ty.startswith("[") \
             or ty.startswith("std::string::String") or ty.startswith("std::collections::")
 
     def local_name(self, l):
